@@ -116,6 +116,14 @@ func runStartTLS(c *fw.Ctx, idx int, r *fw.Rand) {
 	conf.SMTP.TLSEnabled = true
 	conf.SMTP.TLSCert = certFile
 	conf.SMTP.TLSPrivKey = keyFile
+	// After seeded change C06-13: the remaining boolean switches of config.SMTP, which must not
+	// influence the limit either.  One case in five runs with Debug on; one in five with ForceTLS
+	// (the listener's mode "TLS from the first byte": the session is handed a *tls.Conn, the client
+	// shakes hands before the greeting and STARTTLS is not offered), half of those with Debug as well.
+	debug := (idx/4)%5 == 3 || (idx/4)%10 == 4
+	forced := (idx/4)%5 == 4
+	conf.SMTP.Debug = debug
+	conf.SMTP.ForceTLS = forced
 	if backend == "file" {
 		conf.Storage.Type = "file"
 		conf.Storage.Params = map[string]string{"path": c.TempDir("c06tls")}
@@ -125,10 +133,19 @@ func runStartTLS(c *fw.Ctx, idx int, r *fw.Rand) {
 		panic(err)
 	}
 	srv, cli := net.Pipe()
+	var srvConn net.Conn = srv
+	if forced {
+		pair, err := tls.LoadX509KeyPair(certFile, keyFile)
+		if err != nil {
+			c.Inconclusive("cannot load the throw-away certificate: " + err.Error())
+			return
+		}
+		srvConn = tls.Server(srv, &tls.Config{Certificates: []tls.Certificate{pair}})
+	}
 	ended := make(chan struct{})
 	go func() {
 		defer close(ended)
-		env.SMTP.VerifServeConn(900000+idx, srv)
+		env.SMTP.VerifServeConn(900000+idx, srvConn)
 	}()
 	t := &tlsClient{conn: cli, r: bufio.NewReader(cli), wd: 60 * time.Second * time.Duration(c.Slow)}
 	defer func() {
@@ -139,7 +156,20 @@ func runStartTLS(c *fw.Ctx, idx int, r *fw.Rand) {
 			c.Hang("smtp-session-end", "SMTP session did not end after the TLS client closed", "")
 		}
 	}()
-	info := map[string]any{"limit": limit, "backend": backend}
+	info := map[string]any{"limit": limit, "backend": backend, "smtp_debug": debug, "smtp_forcetls": forced}
+	upgrade := func() bool {
+		tc := tls.Client(cli, &tls.Config{InsecureSkipVerify: true, ServerName: "inbucket.test"})
+		_ = cli.SetDeadline(time.Now().Add(t.wd))
+		if err := tc.Handshake(); err != nil {
+			c.Inconclusive("TLS handshake failed: " + err.Error())
+			return false
+		}
+		t.conn, t.r = tc, bufio.NewReader(tc)
+		return true
+	}
+	if forced && !upgrade() {
+		return
+	}
 	bad := func(key, what string, err error) {
 		if err != nil && strings.HasPrefix(err.Error(), "watchdog:") {
 			c.Hang("smtp-starttls", what+": "+err.Error(), "")
@@ -156,24 +186,22 @@ func runStartTLS(c *fw.Ctx, idx int, r *fw.Rand) {
 		bad("C06:starttls-dialogue", "EHLO refused", err)
 		return
 	}
-	if !strings.Contains(strings.Join(lines, "\n"), "STARTTLS") {
-		c.Inconclusive("server does not offer STARTTLS although TLS is configured")
-		return
-	}
-	if code, _, err := t.cmd("STARTTLS"); err != nil || code != 220 {
-		bad("C06:starttls-dialogue", "STARTTLS refused", err)
-		return
-	}
-	tc := tls.Client(cli, &tls.Config{InsecureSkipVerify: true, ServerName: "inbucket.test"})
-	_ = cli.SetDeadline(time.Now().Add(t.wd))
-	if err := tc.Handshake(); err != nil {
-		c.Inconclusive("TLS handshake failed: " + err.Error())
-		return
-	}
-	t.conn, t.r = tc, bufio.NewReader(tc)
-	if code, _, err := t.cmd("EHLO tls.test"); err != nil || code != 250 {
-		bad("C06:starttls-dialogue", "EHLO after STARTTLS refused", err)
-		return
+	if !forced {
+		if !strings.Contains(strings.Join(lines, "\n"), "STARTTLS") {
+			c.Inconclusive("server does not offer STARTTLS although TLS is configured")
+			return
+		}
+		if code, _, err := t.cmd("STARTTLS"); err != nil || code != 220 {
+			bad("C06:starttls-dialogue", "STARTTLS refused", err)
+			return
+		}
+		if !upgrade() {
+			return
+		}
+		if code, _, err := t.cmd("EHLO tls.test"); err != nil || code != 250 {
+			bad("C06:starttls-dialogue", "EHLO after STARTTLS refused", err)
+			return
+		}
 	}
 	send := func(box string, data []byte) (int, error) {
 		for _, l := range []string{"MAIL FROM:<s@sender.test>", "RCPT TO:<" + box + "@inbucket.test>"} {
@@ -200,7 +228,7 @@ func runStartTLS(c *fw.Ctx, idx int, r *fw.Rand) {
 		return
 	}
 	if code/100 == 2 {
-		c.Violation("C06:oversized-data-accepted", fmt.Sprintf("[starttls limit %d %s] after STARTTLS a message of %d bytes was answered %d", limit, backend, len(big), code), info)
+		c.Violation("C06:oversized-data-accepted", fmt.Sprintf("[starttls limit %d %s debug=%v forcetls=%v] on a TLS session a message of %d bytes was answered %d", limit, backend, debug, forced, len(big), code), info)
 		return
 	}
 	if ms, _ := env.Store.GetMessages("tlsbig"); len(ms) != 0 {
@@ -236,5 +264,11 @@ func runStartTLS(c *fw.Ctx, idx int, r *fw.Rand) {
 	}
 	_, _, _ = t.cmd("QUIT")
 	c.Count("starttls_sessions", 1)
-	c.NonTrivial(fmt.Sprintf("starttls|%d|%s", limit, backend))
+	if debug {
+		c.Count("starttls_sessions_debug", 1)
+	}
+	if forced {
+		c.Count("starttls_sessions_forcetls", 1)
+	}
+	c.NonTrivial(fmt.Sprintf("starttls|%d|%s|debug=%v|forcetls=%v", limit, backend, debug, forced))
 }
